@@ -302,6 +302,10 @@ pub fn build(ctl: &'static Ctrl, params: &Value) -> Instance {
         cats.push("spscsub");
         kernel_cats.push("spscsub");
     }
+    if kind == "mpmc" && params["deep"].as_bool().unwrap_or(false) {
+        // no spec replay in this mode: the Semphore underneath is interleaved literally as well
+        cats.push("sem");
+    }
     let opts = ExecOpts { cats, kernel_cats, victims: victims.clone(), vclock: true, offer_tick: true, ..Default::default() };
     let sh3 = sh.clone();
     let sh4 = sh.clone();
@@ -355,6 +359,22 @@ pub fn build(ctl: &'static Ctrl, params: &Value) -> Instance {
                 }
                 End::Budget => v.push(Violation { kind: "livelock".into(), detail: "step budget exhausted".into() }),
                 End::Tool(_) => {}
+            }
+            // nothing is lost: whatever was sent successfully and not yet received must still be
+            // receivable through an endpoint that is alive
+            if matches!(out.end, End::Finished) && sh3.rx_dropped_early.load(SeqCst) == 0 {
+                let mut extra = 0;
+                if let Some(r) = sh3.keep_rx.lock().unwrap().first() {
+                    for _ in 0..64 {
+                        match r.try_recv() {
+                            R::Ok(_) => extra += 1,
+                            _ => break,
+                        }
+                    }
+                    if rec.len() + extra < sent.len() {
+                        v.push(Violation { kind: "value_lost".into(), detail: format!("{} values were sent successfully, {} were received and only {extra} more can still be received", sent.len(), rec.len()) });
+                    }
+                }
             }
             // tear the channel down and check exactly-once drop of everything that was created
             if matches!(out.end, End::Finished) {
